@@ -171,7 +171,8 @@ ParseVerdict(c) ==
       THEN <<P \o ":" \o r.class \o " input not refused with an error (" \o r.why \o ")">> ELSE <<>>)
   \o (IF MustRefuse(c.fmt, r) /\ ~c.evcap /\ ~EvPrefix(R, r.ev, out)
       THEN <<P \o ":events reported beyond the offending item">> ELSE <<>>)
-  \o (IF Accepted(c) /\ ~c.evcap /\ r.class \in {"complete", "grey", "invalid", "lex", "unsupported"} /\ ~(cr.ok /\ cr.stk = <<>>)
+  \o (IF Accepted(c) /\ ~c.evcap /\ (r.class \in {"complete", "grey", "invalid", "lex", "unsupported"} \/ (r.class = "incomplete" /\ KnowsEnd(c)))
+         /\ ~(cr.ok /\ cr.stk = <<>>)
       THEN <<"C09:contract:" \o (IF cr.ok THEN "unbalanced at end" ELSE cr.why)>>
            \* a valid document is read with its value only if what is reported is a stream a consumer can take
            \o (IF r.class = "complete" THEN <<P \o ":the events reported for a valid document are no well-formed stream ("
